@@ -128,6 +128,8 @@ def main():
         for backend in BACKENDS:
             try:
                 simu.solver = SolverType(backend)
+                # every backend starts from zero, not from the solution the previous one left (the iterative ones use it as initial guess)
+                simu._Set_solutions(pt, np.zeros(mesh.Nn * len(simu.Get_unknowns())))
                 u = np.asarray(simu.Solve()).copy()
             except Exception as ex:  # noqa: BLE001
                 res.notes.append(f"backend {backend} not usable: {type(ex).__name__}")
@@ -166,7 +168,7 @@ def main():
             res.fail(f"residual sim={kind}", f"K u - F on free dofs = {np.abs(r[free]).max():.3e} (scale {scale:.3e})", ident)
         for backend, ub in sols.items():
             res.case((it, "backend", backend))
-            if np.abs(ub - u).max() > 1e-5 * (1 + np.abs(u).max()):
+            if np.abs(ub - u).max() > 1e-3 * (1 + np.abs(u).max()):    # iterative backends stop at a relative residual of 1e-5: the error is that times the conditioning
                 res.fail(f"backend={backend} differs", f"solver {backend} differs from the direct solution by {np.abs(ub - u).max():.3e}", ident)
         # correspondence: exact elimination on the same system
         if n <= 24 and len(lines) < 40:
@@ -187,6 +189,65 @@ def main():
         real = BoundaryCondition.Get_dofs_nodes(avail, np.array(nodes), unk)
         lines.append(f"dofs {len(avail)} {' '.join(avail)} {len(nodes)} {' '.join(map(str, nodes))} {len(unk)} {' '.join(unk)}")
         expect.append(("dofs", dict(avail=avail, nodes=nodes, unknowns=unk), real.tolist()))
+
+    # ---------------- B1b: a condition entered AFTER a first solve (no Bc_Init in between) ----------------
+    for kind in ("elastic", "thermal"):
+        meshq = M.mesh_2d("QUAD4", a=2.0, b=1.0, h=0.5)
+        xs_, ys_ = meshq.coord[:, 0], meshq.coord[:, 1]
+        leftq, rightq, topq = np.where(np.isclose(xs_, 0))[0], np.where(np.isclose(xs_, 2.0))[0], np.where(np.isclose(ys_, 1.0) & (xs_ > 0.4) & (xs_ < 1.6))[0]
+
+        def mkq():
+            if kind == "elastic":
+                return Simulations.Elastic(meshq, Models.Elastic.Isotropic(2, E=8.0, v=0.25, planeStress=True, thickness=1.0)), ["x", "y"]
+            return Simulations.Thermal(meshq, Models.Thermal(2.0, 1.0)), ["t"]
+        sA, unkq = mkq()
+        nq = len(unkq)
+        sA.add_dirichlet(leftq, [0.0] * nq, unkq)
+        sA.add_neumann(rightq, [1.0] * nq, unkq)
+        sA.Solve()
+        sA.add_dirichlet(topq, [0.03 * (k + 1) for k in range(nq)], unkq)          # entered after the first solve
+        uA = np.asarray(sA.Solve()).reshape(meshq.Nn, nq)
+        sB, _ = mkq()
+        sB.add_dirichlet(leftq, [0.0] * nq, unkq)
+        sB.add_neumann(rightq, [1.0] * nq, unkq)
+        sB.add_dirichlet(topq, [0.03 * (k + 1) for k in range(nq)], unkq)
+        uB = np.asarray(sB.Solve()).reshape(meshq.Nn, nq)
+        identq = dict(sim=kind, sequence="conditions, Solve, add_dirichlet, Solve")
+        res.case(("late-condition", kind))
+        wantq = np.array([0.03 * (k + 1) for k in range(nq)])
+        if np.abs(uA[topq] - wantq).max() > 1e-10 or np.abs(uA - uB).max() > 1e-9 * (1 + np.abs(uB).max()):
+            res.fail(f"condition entered after a first solve is not held sim={kind}", f"max |u - prescribed| on the new nodes = {np.abs(uA[topq] - wantq).max():.2e}; difference to the same conditions entered at once = {np.abs(uA - uB).max():.2e}", identq)
+
+    # ---------------- B1c: every backend on problems whose loads are tiny (the accuracy asked for is relative) ----------------
+    for scale in (1e-6, 1e-9):
+        for kind in ("elastic", "thermal"):
+            meshs = M.mesh_2d("TRI3", a=2.0, b=1.0, h=0.5)
+            xs_ = meshs.coord[:, 0]
+            lefts, rights = np.where(np.isclose(xs_, 0))[0], np.where(np.isclose(xs_, 2.0))[0]
+            def mks():
+                # a new simulation for every backend: the iterative solvers start from the current solution
+                if kind == "elastic":
+                    s_, u_ = Simulations.Elastic(meshs, Models.Elastic.Isotropic(2, E=8.0, v=0.25, planeStress=True, thickness=1.0)), ["x", "y"]
+                else:
+                    s_, u_ = Simulations.Thermal(meshs, Models.Thermal(2.0, 1.0)), ["t"]
+                s_.add_dirichlet(lefts, [0.0] * len(u_), u_)
+                s_.add_neumann(rights, [scale * (1.0 + 0.5 * k) for k in range(len(u_))], u_)
+                return s_
+            ss = mks()
+            ss.solver = SolverType("scipy")
+            uref = np.asarray(ss.Solve()).copy()
+            for backend in BACKENDS:
+                if backend == "scipy":
+                    continue
+                try:
+                    ss = mks()
+                    ss.solver = SolverType(backend)
+                    ub = np.asarray(ss.Solve()).copy()
+                except Exception:  # noqa: BLE001
+                    continue
+                res.case(("tiny-load", kind, scale, backend))
+                if np.abs(ub - uref).max() > 1e-3 * np.abs(uref).max():
+                    res.fail(f"backend={backend} loses accuracy on a small right-hand side", f"loads of order {scale:g}: solution differs from the direct one by {np.abs(ub - uref).max() / np.abs(uref).max():.2e} (relative)", dict(sim=kind, load_scale=scale, backend=backend))
 
     # ---------------- B2: orphan node ----------------
     mesh0 = M.mesh_2d("TRI3", a=2.0, b=1.0, h=1.0)
@@ -230,6 +291,36 @@ def main():
                     break
         except Exception as ex:  # noqa: BLE001
             res.fail(f"orphan-node sim={okind}", f"solve with an orphan node raised {ex!r}"[:300], dict(sim=okind, Nn=int(meshO.Nn)))
+
+    # ---------------- conditions on the second field of a two-field simulation, with every irreversibility solver ----------------
+    # (BoundConstrain solves the damage problem with the bounded least-squares backend; the conditions on the damage reduce the system)
+    meshD = M.mesh_2d("QUAD4", a=2.0, b=1.0, h=0.5)
+    leftD = meshD.Nodes_Conditions(lambda x, y, z: x == 0)
+    rightD = meshD.Nodes_Conditions(lambda x, y, z: x == 2.0)
+    midD = meshD.Nodes_Conditions(lambda x, y, z: x == 1.0)
+    dref = None
+    for psolver in ("History", "HistoryDamage", "BoundConstrain"):
+        res.case(("damage-dirichlet", psolver))
+        identD = dict(sim="PhaseField", damage_solver=psolver, constrained_nodes=[int(n) for n in midD])
+        try:
+            sd_ = Simulations.PhaseField(meshD, Models.PhaseField(Models.Elastic.Isotropic(2, E=210.0, v=0.3, planeStress=True, thickness=1.0), "Amor", "AT2", 0.5, 0.4, solver=psolver))
+            sd_.add_dirichlet(leftD, [0.0, 0.0], ["x", "y"])
+            sd_.add_dirichlet(rightD, [0.02], ["x"])
+            sd_.add_dirichlet(midD, [0.25], ["d"], problemType="damage")
+            sd_.add_dirichlet(midD[:1], [0.125], ["d"], problemType="damage")     # one node constrained twice: 0.25 + 0.125
+            sd_.Solve()
+            dmg = np.asarray(sd_.damage)
+            want = np.full(len(midD), 0.25)
+            want[0] += 0.125
+            if np.abs(dmg[midD] - want).max() > 1e-9:
+                res.fail(f"constrained-value sim=phasefield field=damage solver={psolver}", f"after the solve the constrained damage dofs hold {dmg[midD].tolist()} instead of {want.tolist()}", identD)
+            elif dref is None:
+                dref = dmg
+            elif np.abs(dmg - dref).max() > 1e-5:
+                # first step from an undamaged state: the irreversibility bounds are inactive, the three solvers solve the same system
+                res.fail(f"damage solvers disagree solver={psolver}", f"first load step from an undamaged state: the damage differs from the History solver's by {np.abs(dmg - dref).max():.2e}", identD)
+        except Exception as ex:  # noqa: BLE001
+            res.fail(f"solve with conditions on the damage raises solver={psolver}", f"{type(ex).__name__}: {str(ex)[:150]}", identD)
 
     # ---------------- B3: beam connection (Lagrange path) vs one continuous beam (elimination) ----------------
     for et in (["SEG2", "SEG3"] if args.tier == "quick" else ["SEG2", "SEG3", "SEG4"]):
@@ -351,7 +442,7 @@ def main():
         if np.abs(u2[right, 0] - 0.05).max() > 1e-9:
             res.fail("newton incremental dirichlet repeated-dof", f"dof entered twice (0.03 + 0.02): after the Newton solve it holds {u2[right, 0][0]!r} instead of 0.05", dict(sim="HyperElastic", values=[0.03, 0.02]))
     except Exception as ex:  # noqa: BLE001
-        res.notes.append(f"hyperelastic Newton check skipped: {type(ex).__name__}: {ex}")
+        res.fail("newton incremental dirichlet raises", f"the Newton-incremental scenario raised {type(ex).__name__}: {str(ex)[:150]}", dict(sim="HyperElastic"))
 
     # ---------------- correspondence ----------------
     answers = driver.ask(lines)
